@@ -10,7 +10,7 @@
    compares reals by kind only. *)
 From Coq Require Import NArith ZArith List Bool.
 From Qv Require Import gen.Tables_json JsonModel JsonSpec JsonProofsBase JsonProofsStr JsonProofsNum JsonProofsParse
-  JsonProofsComplete JsonProofsDoc JsonProofsCst JsonProofsInt JsonProofsC06 JsonDigitExt JsonDigitRfc JsonDigitC06.
+  JsonProofsComplete JsonProofsDoc JsonProofsCst JsonProofsInt JsonProofsC06 JsonDigitExt JsonDigitRfc JsonDigitC06 JsonDigitBig JsonDigitC08 JsonDigitForms.
 Import ListNotations.
 Local Open Scope N_scope.
 
@@ -139,12 +139,60 @@ Proof.
 Qed.
 Print Assumptions c06_reals_example.
 
+(* 5. Integer numerals that do NOT fit (JsonDigitBig.v), and the independent RFC number recogniser (JsonDigitForms.v):
+      every digit-only numeral is classified -- the exact unsigned value below 2^64, the exact negative value down to -2^63, and
+      otherwise (2^64 or more; below -2^63; -0) Real with everything consumed, or NaN by the range tests: never a wrong integer *)
+Theorem c06_int_numeral_classified : forall ds rest, digits_wf ds = true -> num_follow rest = true ->
+  (dval ds < 18446744073709551616 -> scan_number (ds ++ rest) = JOk (NumNat (dval ds) rest)) /\
+  (18446744073709551616 <= dval ds ->
+     scan_number (ds ++ rest) = JOk (NumReal rest) \/ scan_number (ds ++ rest) = JOk NumNaN) /\
+  (0 < dval ds -> dval ds <= int_min_abs ->
+     scan_number (dc_neg :: ds ++ rest) = JOk (NumInt (Z.opp (Z.of_N (dval ds))) rest)) /\
+  (int_min_abs < dval ds \/ dval ds = 0 ->
+     scan_number (dc_neg :: ds ++ rest) = JOk (NumReal rest) \/ scan_number (dc_neg :: ds ++ rest) = JOk NumNaN).
+Proof. exact int_numeral_classified. Qed.
+Print Assumptions c06_int_numeral_classified.
+
+(* a text accepted as a whole by the RFC recogniser rfc_number (written independently of the reader) is one of three:
+   an unsigned integer that fits, a negative integer that fits, or a REAL TEXT (fraction or exponent, or digits that do not fit) *)
+Theorem c06_rfc_number_classified : forall txt, rfc_numb txt = true ->
+  (exists ds, digits_wf ds = true /\ txt = ds /\ dval ds < 18446744073709551616) \/
+  (exists ds, digits_wf ds = true /\ txt = dc_neg :: ds /\ 0 < dval ds /\ dval ds <= int_min_abs) \/
+  RfcRealText txt.
+Proof. exact rfc_number_classified. Qed.
+Print Assumptions c06_rfc_number_classified.
+
+(* and what the scanner does with it, followed by anything that may follow a number in a document: NaN only for a real text
+   the range tests reject *)
+Theorem c06_rfc_number_scanned : forall txt rest, rfc_numb txt = true -> num_follow rest = true ->
+  (exists n, scan_number (txt ++ rest) = JOk (NumNat n rest)) \/
+  (exists z, scan_number (txt ++ rest) = JOk (NumInt z rest)) \/
+  (RfcRealText txt /\ real_in_range txt = true /\ scan_number (txt ++ rest) = JOk (NumReal rest)) \/
+  (RfcRealText txt /\ real_in_range txt = false /\ scan_number (txt ++ rest) = JOk NumNaN).
+Proof. exact rfc_number_scanned. Qed.
+Print Assumptions c06_rfc_number_scanned.
+
+(* the guard of a real leaf, for every real text in range (supersedes c06_real_leaf_guard, which has RfcFrac only) *)
+Theorem c06_real_text_guard : forall txt, RfcRealText txt -> real_in_range txt = true ->
+  real_wholeb txt = true /\ real_numeral txt.
+Proof. intros txt H1 H2. split; [apply realtext_leaf_ok|apply rfc_realtext_numeral]; assumption. Qed.
+Print Assumptions c06_real_text_guard.
+
+(* non-vacuity: 2^64, -(2^63+1) and -0 are real texts in range *)
+Theorem c06_big_examples :
+  scan_number [49;56;52;52;54;55;52;52;48;55;51;55;48;57;53;53;49;54;49;54] = JOk (NumReal []) /\
+  RfcRealText [49;56;52;52;54;55;52;52;48;55;51;55;48;57;53;53;49;54;49;54] /\
+  (RfcRealText [45;57;50;50;51;51;55;50;48;51;54;56;53;52;55;55;53;56;48;57] /\
+   real_in_range [45;57;50;50;51;51;55;50;48;51;54;56;53;52;55;55;53;56;48;57] = true) /\
+  (RfcRealText [45;48] /\ real_in_range [45;48] = true).
+Proof. split; [exact big_ex1|]. split; [exact big_ex1_text|]. split; [exact big_ex2|exact big_ex3]. Qed.
+Print Assumptions c06_big_examples.
+
 (* What remains a predicate / a gap:
    - [real_in_range] is the scanner's own verdict (not NaN), not a statement about the magnitude of the numeral;
-   - integer numerals that do NOT fit 64 bits (e.g. 18446744073709551616) are decided by the boolean real_wholeb, but the
-     grammar-level theorem (c06_rfc_real_is_real_or_out_of_range) covers only numerals with a fraction or an exponent;
    - that JsonModel.scan_number and DigitModel.string_to_number (two transliterations of Digit::stringToNumber) agree on kind and
-     consumed length is NOT proved here: both are tied to the C++ by their own correspondence runs; [values] takes the bits from
+     consumed length is NOT proved here: both are tied to the C++ by their own correspondence runs, and the C06 check compares the
+     two models on every numeral of every generated document (ocaml/json.ml, scanners_agree); [values] takes the bits from
      DigitModel.string_to_number applied to the numeral text alone;
    - that the bits are within one unit in the last place of the numeral: C09. *)
 
